@@ -49,6 +49,27 @@ class Source:
         self.closed += 1
 
 
+class SourceProxy:
+    """only the iteration protocol is defined on the class; aclose and the counters come through __getattr__"""
+
+    def __init__(self, inner):
+        self.__dict__["_inner"] = inner
+
+    def __aiter__(self):
+        return self
+
+    def __anext__(self):
+        return self._inner.__anext__()
+
+    def __getattr__(self, name):
+        return getattr(self.__dict__["_inner"], name)
+
+
+def make_source(items, susp):
+    src = Source(items, susp)
+    return SourceProxy(src) if (len(src.items) + susp) % 3 == 2 else src
+
+
 class Rec:
     def __init__(self):
         self.out = []
@@ -79,7 +100,7 @@ class System:
     def __init__(self, cfg):
         self.cfg = cfg
         self.sched = Sched()
-        self.src = Source(cfg["items"], cfg["susp"])
+        self.src = make_source(cfg["items"], cfg["susp"])
         self.lock = Lock(self.sched) if cfg["lock"] else None
         n = len(cfg["scripts"])
         self.tee = a.tee(self.src, n, lock=self.lock) if self.lock else a.tee(self.src, n)
@@ -346,7 +367,7 @@ def run(tier, seed):
     from gencalc import drive
     for k in range(60 if tier == "quick" else 1000):
         n = rng.choice([1, 2, 3, 4])
-        src = Source(mk_items(rng.randrange(0, 5)), 0)
+        src = make_source(mk_items(rng.randrange(0, 5)), 0)
         t = a.tee(src, n)
         kids = list(t)
         if len(t) != n or t[0] is not kids[0]:
